@@ -583,7 +583,10 @@ class ClassModificationArgument(Node):
         self.scope, self.__deepcopy__ = None, None
         new = copy.deepcopy(self, memo)
         self.scope, self.__deepcopy__ = _scope, _deepcp
-        new.scope, new.__deepcopy__ = _scope, _deepcp
+        # The copy keeps the scope, but must use its own (class-level)
+        # __deepcopy__, not the method bound to the original instance.
+        new.scope = _scope
+        del new.__deepcopy__
         return new
 
 
